@@ -23,7 +23,7 @@ Proof.
   split; auto.
   assert (U : step_f e [] (run_f e inst_empty h) l = (fst r, false)).
   { unfold r in *. destruct (step_f e [] (run_f e inst_empty h) l) as [s' err]. cbn in *. subst. reflexivity. }
-  apply (success_is_convergence e dn SR h W l [] (fst r) Wl U).
+  apply (success_is_convergence e dn SR h W l [] (fst r) Wl eq_refl U).
 Qed.
 
 (* ================================================================ the reload queue *)
@@ -64,18 +64,26 @@ Qed.
    until one reload succeeds: the running haproxy has loaded the files of the current state *)
 Theorem retry_converges_reload_queue : forall e dn, shard_range e -> inline e = false ->
   forall h, wf_hist e dn inst_empty h ->
-  forall l fs s', wf_batch e dn (i_cfg (run_f e inst_empty h)) l ->
+  forall l fs s', wf_batch e dn (i_cfg (run_f e inst_empty h)) l -> armed fs FReloadSilent = false ->
     step_f e fs (run_f e inst_empty h) l = (s', false) ->
   forall results, i_pending s' = true -> In true results ->
     let s'' := reload_attempts results s' in
     exists run, i_running s'' = Some run /\ disk_ok e (i_cfg s'') run /\ disk_ok e (i_cfg s'') (i_disk s'') /\
                 i_pending s'' = false.
 Proof.
-  intros e dn SR Q h W l fs s' Wl U results P I s''.
-  destruct (success_is_convergence e dn SR h W l fs s' Wl U) as [_ [D _]].
+  intros e dn SR Q h W l fs s' Wl NS U results P I s''.
+  destruct (success_is_convergence e dn SR h W l fs s' Wl NS U) as [_ [D _]].
   destruct (reload_queue_retries results s' P I) as [R [Pn [C Dk]]].
   exists (i_disk s'). unfold s''. rewrite C, Dk. auto.
 Qed.
+
+Lemma step_nofault : forall e s l, step_f e [] s l = (fst (step_f e [] s l), false).
+Proof.
+  intros e s l. rewrite (surjective_pairing (step_f e [] s l)) at 1. unfold step_f. rewrite update_nofault_ok. reflexivity.
+Qed.
+
+Lemma update_nofault_eq : forall e s l, update_f e [] (sync e s l) = (fst (step_f e [] s l), false).
+Proof. intros e s l. exact (step_nofault e s l). Qed.
 
 (* ================================================================ a restart of the controller *)
 
@@ -89,22 +97,23 @@ Lemma restart_reach : forall e dn s, reach e dn (restart s).
 Proof. intros e dn s. apply (reach_new e dn (i_disk s) (i_running s)). Qed.
 
 Theorem restart_converges : forall e dn, shard_range e ->
-  forall s l fs s', wf_batch e dn (i_cfg (restart s)) l -> step_f e fs (restart s) l = (s', false) ->
+  forall s l fs s', wf_batch e dn (i_cfg (restart s)) l -> armed fs FReloadSilent = false ->
+    step_f e fs (restart s) l = (s', false) ->
     disk_ok e (i_cfg s') (i_disk s') /\
     (inline e = true -> exists r, i_running s' = Some r /\ disk_ok e (i_cfg s') r).
 Proof.
-  intros e dn SR s l fs s' W U.
+  intros e dn SR s l fs s' W NS U.
   assert (G : good e dn s') by (apply (update_good e dn fs (restart s) l); auto; apply restart_reach).
   split; [apply (good_disk_ok e dn); auto|apply (good_running_ok e dn); auto].
 Qed.
 (* ... and so do the histories that follow a restart, faults included *)
 Theorem restart_then_history : forall e dn, shard_range e ->
   forall s h, wf_hist e dn (restart s) h ->
-  forall l fs s', wf_batch e dn (i_cfg (run_f e (restart s) h)) l ->
+  forall l fs s', wf_batch e dn (i_cfg (run_f e (restart s) h)) l -> armed fs FReloadSilent = false ->
     step_f e fs (run_f e (restart s) h) l = (s', false) ->
     disk_ok e (i_cfg s') (i_disk s').
 Proof.
-  intros e dn SR s h W l fs s' Wl U.
+  intros e dn SR s h W l fs s' Wl NS U.
   assert (R : reach e dn (run_f e (restart s) h)) by (apply reach_hist; auto using restart_reach).
   apply (good_disk_ok e dn); auto. apply (update_good e dn fs (run_f e (restart s) h) l); auto.
 Qed.
@@ -120,8 +129,8 @@ Definition w_full2 : list op :=
   [OClear; OGlobal 0; OBackAcquire 0 (w_b 0); OBackAcquire 1 (w_b 1); OHostAcquire 0 (w_h 0); OHostAcquire 1 (w_h 1); ODefault None].
 Definition w_full1 : list op := [OClear; OGlobal 0; OBackAcquire 0 (w_b 0); OHostAcquire 0 (w_h 0); ODefault None].
 Definition w_part : list op := [OTcpRemove []; OHostsRemove [1]; OBacksRemove [1]].
-Definition w_s1 : inst := fst (step w_env inst_empty w_full2).
-Definition w_s2 : inst := fst (step w_env (restart w_s1) w_full1).
+Definition w_s1 : inst := fst (step_f w_env [] inst_empty w_full2).
+Definition w_s2 : inst := fst (step_f w_env [] (restart w_s1) w_full1).
 
 Lemma w_range : shard_range w_env.
 Proof.
@@ -153,9 +162,9 @@ Lemma w_wf1 : wf_batch w_env 7 (i_cfg inst_empty) w_full2.
 Proof. solve_wf (dom_empty w_env). Qed.
 Lemma w_dom_s1 : dom w_env (i_cfg w_s1).
 Proof.
-  assert (R : reach w_env 7 w_s1).
-  { apply (step_reach w_env 7 [] inst_empty w_full2); [apply w_range|apply reach_empty|apply w_wf1]. }
-  apply R.
+  assert (R : reach w_env 7 (fst (step_f w_env [] inst_empty w_full2))).
+  { exact (step_reach w_env 7 [] inst_empty w_full2 w_range (reach_empty w_env 7) w_wf1 eq_refl). }
+  unfold w_s1. apply R.
 Qed.
 Lemma w_wf2 : wf_batch w_env 7 (i_cfg (restart w_s1)) w_full1.
 Proof. solve_wf (dom_empty w_env). Qed.
@@ -164,8 +173,9 @@ Proof. solve_wf w_dom_s1. Qed.
 
 (* the hypotheses of the theorems are satisfiable: a full sync, then a partial sync that
    removes the only backend of shard 1, with or without faults *)
-Example wf_hist_example : wf_hist w_env 7 inst_empty [(w_full2, []); (w_part, [FShard 1])].
-Proof. cbn [wf_hist fst snd]. split; [apply w_wf1|]. split; [apply w_wf_part|exact I]. Qed.
+Example wf_hist_example :
+  wf_hist w_env 7 inst_empty [(w_full2, [])] /\ wf_batch w_env 7 (i_cfg w_s1) w_part.
+Proof. exact (conj (conj w_wf1 (conj eq_refl I)) w_wf_part). Qed.
 
 (* the stale shard file of the witness is removed by the restarted instance *)
 Example restart_witness_converges :
@@ -173,10 +183,8 @@ Example restart_witness_converges :
 Proof.
   split; [|split].
   - assert (U : step_f w_env [] (restart w_s1) w_full1 = (w_s2, false)).
-    { unfold w_s2, step_f, step, update.
-      rewrite (surjective_pairing (update_f w_env [] (sync w_env (restart w_s1) w_full1))) at 1.
-      rewrite update_nofault_ok. reflexivity. }
-    apply (restart_converges w_env 7 w_range w_s1 w_full1 [] w_s2 w_wf2 U).
+    { unfold w_s2. exact (step_nofault w_env (restart w_s1) w_full1). }
+    apply (restart_converges w_env 7 w_range w_s1 w_full1 [] w_s2 w_wf2 eq_refl U).
   - vm_compute. reflexivity.
   - vm_compute. discriminate.
 Qed.
@@ -321,14 +329,14 @@ Lemma erase_follows : forall e dn, shard_range e -> forall h s s', reach e dn s 
 Proof.
   intros e dn SR. induction h as [|[l fs] h IH]; cbn [wf_hist erase map run_f fold_left fst snd]; intros s s' R R' I W.
   - auto.
-  - destruct W as [W1 W2].
+  - destruct W as [W1 [NS W2]].
     assert (C : clean (i_cfg s)) by apply R. assert (C' : clean (i_cfg s')) by apply R'.
     assert (W1' : wf_batch e dn (i_cfg s') l) by (apply (wf_batch_ieq e dn (i_cfg s)); auto).
     assert (R1 : reach e dn (fst (step_f e fs s l))) by (apply step_reach; auto).
     assert (R1' : reach e dn (fst (step_f e [] s' l))) by (apply step_reach; auto).
     assert (I1 : ieq (i_cfg (fst (step_f e fs s l))) (i_cfg (fst (step_f e [] s' l)))) by (apply step_ieq; auto).
     destruct (IH _ _ R1 R1' I1 W2) as [A [B [Cc D]]]. fold (erase h) in *.
-    split; [split; auto|]. split; auto.
+    split; [split; [auto|split; [reflexivity|auto]]|]. split; auto.
 Qed.
 
 Lemma disk_ok_ieq : forall e c c' d, ieq c c' -> disk_ok e c d -> disk_ok e c' d.
@@ -369,4 +377,91 @@ Proof.
   assert (I1 : ieq (i_cfg faulty) (i_cfg faultfree)) by (apply step_ieq; auto).
   split; [apply (disk_ok_ieq e (i_cfg faulty)); auto|]. split; [exact D'|].
   intros Inl. destruct (Rn Inl) as [r [Hr Dr]]. exists r. split; auto. apply (disk_ok_ieq e (i_cfg faulty)); auto.
+Qed.
+
+(* ================================================================ a reload dropped without any sign *)
+
+(* The hypothesis [armed fs FReloadSilent = false] cannot be removed.  If the master reads
+   `reload`, closes the connection (or answers garbage) without reloading, and `show proc` then
+   shows its old healthy worker, reloadWorker and waitWorker see nothing wrong: the update
+   reports success, nothing is retried, and the running haproxy keeps a backend that is gone.
+   (A connection that is *reset* is an error of Send and is reported: FReloadReset.) *)
+Definition w_env_inline : env :=
+  {| nsh := 2; sh := fun x => x mod 2; UB := [0; 1]; UH := [0; 1]; UT := []; inline := true |}.
+
+Lemma armed_silent_only : forall p, p <> FReloadSilent -> armed [FReloadSilent] p = false.
+Proof. intros p H. destruct p; try reflexivity. congruence. Qed.
+Lemma shard_fails_silent : forall e c u, shard_fails e [FReloadSilent] c u = false.
+Proof. reflexivity. Qed.
+
+(* with that fault alone the update does exactly what it does without fault, except that the
+   running haproxy stays what it was *)
+Lemma silent_same_files : forall e s,
+  i_cfg (fst (update_f e [FReloadSilent] s)) = i_cfg (fst (update_f e [] s)) /\
+  i_disk (fst (update_f e [FReloadSilent] s)) = i_disk (fst (update_f e [] s)) /\
+  snd (update_f e [FReloadSilent] s) = snd (update_f e [] s) /\
+  i_running (fst (update_f e [FReloadSilent] s)) = i_running s.
+Proof.
+  intros e s.
+  assert (P1 : forall c d, ph_tcpmaps e [FReloadSilent] c d = ph_tcpmaps e [] c d) by reflexivity.
+  assert (P2 : forall c d, ph_front e [FReloadSilent] c d = ph_front e [] c d) by reflexivity.
+  assert (P3 : forall c d, ph_backmaps e [FReloadSilent] c d = ph_backmaps e [] c d) by reflexivity.
+  assert (P4 : forall c d, ph_tcpcrt e [FReloadSilent] c d = ph_tcpcrt e [] c d) by reflexivity.
+  assert (P5 : forall cl c d, ph_config e [FReloadSilent] cl c d = ph_config e [] cl c d) by reflexivity.
+  unfold update_f. Time rewrite P1.
+  destruct (ph_tcpmaps e [] _ (i_disk s)) as [d1 e1]. destruct e1; [cbn; repeat split; reflexivity|].
+  rewrite P2. destruct (ph_front e [] _ d1) as [[c2 d2] e2]. destruct e2; [cbn; repeat split; reflexivity|].
+  rewrite P3. destruct (ph_backmaps e [] c2 d2) as [d3 e3]. destruct e3; [cbn; repeat split; reflexivity|].
+  rewrite P4. destruct (ph_tcpcrt e [] c2 d3) as [d4 e4]. destruct e4; [cbn; repeat split; reflexivity|].
+  destruct (updated e c2); [cbn; repeat split; reflexivity|].
+  rewrite P5. destruct (ph_config e [] (i_clean s) c2 d4) as [d5 e5]. destruct e5; [cbn; repeat split; reflexivity|].
+  destruct (inline e); cbn; repeat split; reflexivity.
+Qed.
+
+(* the general shape of the refutation: from any good state, inline *)
+Lemma silent_drop_general : forall e dn s l, shard_range e -> inline e = true -> good e dn s -> wf_batch e dn (i_cfg s) l ->
+  step_f e [FReloadSilent] s l = (fst (step_f e [FReloadSilent] s l), false) /\
+  disk_ok e (i_cfg (fst (step_f e [FReloadSilent] s l))) (i_disk (fst (step_f e [FReloadSilent] s l))) /\
+  i_cfg (fst (step_f e [FReloadSilent] s l)) = i_cfg (fst (step_f e [] s l)) /\
+  exists r0, i_running (fst (step_f e [FReloadSilent] s l)) = Some r0 /\ disk_ok e (i_cfg s) r0.
+Proof.
+  intros e dn s l SR Inl G W.
+  destruct (silent_same_files e (sync e s l)) as [Ec [Ed [Ee Er]]].
+  assert (G2 : good e dn (fst (step_f e [] s l))).
+  { exact (update_good e dn [] s l _ SR (good_reach e dn s G) W eq_refl (update_nofault_eq e s l)). }
+  unfold step_f in *. split; [|split; [|split]].
+  - rewrite (surjective_pairing (update_f e [FReloadSilent] (sync e s l))) at 1. rewrite Ee, update_nofault_ok. reflexivity.
+  - rewrite Ec, Ed. apply (good_disk_ok e dn); auto.
+  - exact Ec.
+  - rewrite Er. cbn [sync i_running]. destruct (good_running_ok e dn s SR G Inl) as [r0 [H1 H2]]. exists r0. auto.
+Qed.
+
+Theorem silent_reload_drop_refuted :
+  exists e dn h l fs s',
+    shard_range e /\ inline e = true /\ wf_hist e dn inst_empty h /\
+    wf_batch e dn (i_cfg (run_f e inst_empty h)) l /\
+    step_f e fs (run_f e inst_empty h) l = (s', false) /\
+    disk_ok e (i_cfg s') (i_disk s') /\
+    forall r, i_running s' = Some r -> ~ disk_ok e (i_cfg s') r.
+Proof.
+  exists w_env_inline, 7, [(w_full2, [])], w_part, [FReloadSilent].
+  cbn [run_f fold_left fst snd].
+  set (s1 := fst (step_f w_env_inline [] inst_empty w_full2)).
+  exists (fst (step_f w_env_inline [FReloadSilent] s1 w_part)).
+  assert (SR : shard_range w_env_inline) by (intros x _ _; cbn [sh nsh w_env_inline]; apply N.mod_lt; discriminate).
+  assert (W1 : wf_batch w_env_inline 7 (i_cfg inst_empty) w_full2).
+  { split; [apply shape_full; reflexivity|]. split; [solve_in|].
+    apply (ready_b_sound w_env_inline); [apply dom_apply_ops; [solve_in|apply dom_empty]|vm_compute; reflexivity]. }
+  assert (G1 : good w_env_inline 7 s1).
+  { exact (update_good w_env_inline 7 [] inst_empty w_full2 _ SR (reach_empty w_env_inline 7) W1 eq_refl (update_nofault_eq w_env_inline inst_empty w_full2)). }
+  assert (W2 : wf_batch w_env_inline 7 (i_cfg s1) w_part).
+  { split; [apply shape_partial; reflexivity|]. split; [solve_in|].
+    apply (ready_b_sound w_env_inline); [apply dom_apply_ops; [solve_in|apply G1]|vm_compute; reflexivity]. }
+  destruct (silent_drop_general w_env_inline 7 s1 w_part SR eq_refl G1 W2) as [U [D [Ec [r0 [Hr0 D0]]]]].
+  split; [exact SR|]. split; [reflexivity|].
+  split; [cbn [wf_hist fst snd]; split; [exact W1|split; [reflexivity|exact I]]|].
+  split; [exact W2|]. split; [exact U|]. split; [exact D|].
+  intros r Hr H. rewrite Hr0 in Hr. inversion Hr; subst r0.
+  pose proof (ok_backends _ _ _ D0 2 1) as B0. pose proof (ok_backends _ _ _ H 2 1) as B.
+  rewrite B0 in B. rewrite Ec in B. vm_compute in B. discriminate.
 Qed.
